@@ -81,3 +81,205 @@ package document
 //@   invariant forall k int :: 0 <= k && k < len(runInfos) ==> runInfos[k].run != nil
 //@   invariant len(runInfos) == 0 ==> fullText == ""
 //@   decreases len(para.Runs) - #i
+
+//@ func (*TemplateEngine).createTextParagraph
+//@ props C17
+//@ requires te != nil && originalPara != nil
+//@ modifies nothing
+//@ ensures fresh(result)
+
+// ---- tables ---------------------------------------------------------------------------------------------
+// tableRoot(t, b): the table object (or the array cell holding it) and its row array lie at or above b.
+// With closedAbove(b) everything the renderer reaches from t - rows, cells, their paragraphs, nested tables
+// at any depth - lies at or above b.
+// (a *Table that points into an array points into an array of tables: Go's typing, stated because allocation
+// tags are ghost state)
+//@ spec tableRoot(t *Table, b int) bool = t != nil && above(t, b) && above(t.Rows, b) && tagged(t.Rows, "TableRow") && (isElem(t) ==> elemOf(t, "Table"))
+
+//@ func (*TemplateEngine).containsTemplateLoop
+//@ props C17
+//@ modifies nothing
+
+//@ func (*TemplateEngine).containsTemplateLoopInRuns
+//@ props C17
+//@ requires te != nil
+//@ modifies nothing
+//@ loop 1
+//@   invariant 0 <= #i && #i <= len(runs) && unchangedHeap()
+//@   decreases len(runs) - #i
+
+//@ func (*TemplateEngine).isTableTemplate
+//@ props C17
+//@ requires te != nil && table != nil
+//@ modifies nothing
+//@ loop 1
+//@   invariant 0 <= #i && #i <= len(table.Rows) && unchangedHeap()
+//@   decreases len(table.Rows) - #i
+//@ loop 2
+//@   invariant 0 <= #i && #i <= len(row.Cells) && unchangedHeap()
+//@   decreases len(row.Cells) - #i
+//@ loop 3
+//@   invariant 0 <= #i && #i <= len(cell.Paragraphs) && unchangedHeap()
+//@   decreases len(cell.Paragraphs) - #i
+
+// replaceVariablesInTable / renderTableTemplate (mutually recursive through nested tables; termination not
+// claimed). Given a table at or above B in a region closed above B, nothing below B is written: every row,
+// cell, paragraph and nested table they write to is reached from the table and therefore lies in the region;
+// everything else they write is fresh (cloned rows, new run arrays, the per-item data of nested tables).
+// The region stays closed and the table stays rooted in it. Top-level tables and paragraphs other than the
+// argument (separately allocated objects, not array cells) keep their rows / runs.
+// assume-no-panic: after the recursive call on a nested table the engine no longer knows the lengths of the
+// outer table's own row/cell arrays (that the nested table is not an ancestor of itself is a tree-shape fact
+// we do not state), so the index checks of these two functions are assumed, not proved.
+//@ func (*TemplateEngine).replaceVariablesInTable
+//@ props C17
+//@ ghost B int
+//@ assume-no-panic
+//@ partial
+//@ requires te != nil && data != nil && tableRoot(table, B) && closedAbove(B)
+//@ modifies Table.Rows, TableRow.*, Paragraph.Runs
+//@ ensures unchangedBelow(B) && closedAbove(B) && tableRoot(table, B)
+//@ ensures forall t *Table :: !isElem(t) && t != table ==> t.Rows == old(t.Rows)
+//@ ensures forall r *TableRow :: !isElem(r) && allocated(r) ==> r.Cells == old(r.Cells)
+//@ ensures forall p *Paragraph :: !isElem(p) && allocated(p) ==> p.Runs == old(p.Runs)
+//@ loop 1
+//@   invariant unchangedBelow(B) && closedAbove(B) && tableRoot(table, B)
+//@   invariant forall t *Table :: !isElem(t) && t != table ==> t.Rows == old(t.Rows)
+//@   invariant forall r *TableRow :: !isElem(r) && allocated(r) ==> r.Cells == old(r.Cells)
+//@   invariant forall p *Paragraph :: !isElem(p) && allocated(p) ==> p.Runs == old(p.Runs)
+//@ loop 2
+//@   invariant unchangedBelow(B) && closedAbove(B) && tableRoot(table, B)
+//@   invariant forall t *Table :: !isElem(t) && t != table ==> t.Rows == old(t.Rows)
+//@   invariant forall r *TableRow :: !isElem(r) && allocated(r) ==> r.Cells == old(r.Cells)
+//@   invariant forall p *Paragraph :: !isElem(p) && allocated(p) ==> p.Runs == old(p.Runs)
+//@ loop 3
+//@   invariant unchangedBelow(B) && closedAbove(B) && tableRoot(table, B)
+//@   invariant forall t *Table :: !isElem(t) && t != table ==> t.Rows == old(t.Rows)
+//@   invariant forall r *TableRow :: !isElem(r) && allocated(r) ==> r.Cells == old(r.Cells)
+//@   invariant forall p *Paragraph :: !isElem(p) && allocated(p) ==> p.Runs == old(p.Runs)
+//@ loop 4
+//@   invariant unchangedBelow(B) && closedAbove(B) && tableRoot(table, B)
+//@   invariant forall t *Table :: !isElem(t) && t != table ==> t.Rows == old(t.Rows)
+//@   invariant forall r *TableRow :: !isElem(r) && allocated(r) ==> r.Cells == old(r.Cells)
+//@   invariant forall p *Paragraph :: !isElem(p) && allocated(p) ==> p.Runs == old(p.Runs)
+
+//@ func (*TemplateEngine).renderTableTemplate
+//@ props C17
+//@ ghost B int
+//@ assume-no-panic
+//@ partial
+//@ ignore-ensures deepcopy
+//@ requires te != nil && data != nil && tableRoot(table, B) && closedAbove(B)
+//@ modifies Table.Rows, TableRow.*, Paragraph.Runs
+//@ ensures unchangedBelow(B) && closedAbove(B) && tableRoot(table, B)
+//@ ensures forall t *Table :: !isElem(t) && t != table ==> t.Rows == old(t.Rows)
+//@ ensures forall r *TableRow :: !isElem(r) && allocated(r) ==> r.Cells == old(r.Cells)
+//@ ensures forall p *Paragraph :: !isElem(p) && allocated(p) ==> p.Runs == old(p.Runs)
+//@ loop 1
+//@   invariant unchangedHeap() && closedAbove(B)
+//@ loop 2
+//@   invariant unchangedHeap() && closedAbove(B)
+//@ loop 3
+//@   invariant unchangedHeap() && closedAbove(B)
+//@ loop 4
+//@   invariant unchangedHeap() && closedAbove(B)
+//@ loop 5
+//@   invariant unchangedExcept("Table.Rows", "TableRow.*", "Paragraph.Runs")
+//@   invariant unchangedBelow(B)
+//@   invariant closedRows(B)
+//@   invariant closedCells(B)
+//@   invariant closedTables(B)
+//@   invariant table != nil && above(table, B) && above(newRows, B) && tagged(newRows, "TableRow")
+//@   invariant forall t *Table :: !isElem(t) && t != table ==> t.Rows == old(t.Rows)
+//@   invariant forall r *TableRow :: !isElem(r) && allocated(r) ==> r.Cells == old(r.Cells)
+//@   invariant forall p *Paragraph :: !isElem(p) && allocated(p) ==> p.Runs == old(p.Runs)
+//@ loop 6
+//@   invariant unchangedExcept("Table.Rows", "TableRow.*", "Paragraph.Runs")
+//@   invariant unchangedBelow(B)
+//@   invariant closedRows(B)
+//@   invariant closedCells(B)
+//@   invariant closedTables(B)
+//@   invariant table != nil && above(table, B) && above(newRows, B) && tagged(newRows, "TableRow")
+//@   invariant forall t *Table :: !isElem(t) && t != table ==> t.Rows == old(t.Rows)
+//@   invariant forall r *TableRow :: !isElem(r) && allocated(r) ==> r.Cells == old(r.Cells)
+//@   invariant forall p *Paragraph :: !isElem(p) && allocated(p) ==> p.Runs == old(p.Runs)
+//@ loop 14
+//@   invariant unchangedExcept("Table.Rows", "TableRow.*", "Paragraph.Runs")
+//@   invariant unchangedBelow(B)
+//@   invariant closedRows(B)
+//@   invariant closedCells(B)
+//@   invariant closedTables(B)
+//@   invariant table != nil && above(table, B) && above(newRows, B) && tagged(newRows, "TableRow")
+//@   invariant forall t *Table :: !isElem(t) && t != table ==> t.Rows == old(t.Rows)
+//@   invariant forall r *TableRow :: !isElem(r) && allocated(r) ==> r.Cells == old(r.Cells)
+//@   invariant forall p *Paragraph :: !isElem(p) && allocated(p) ==> p.Runs == old(p.Runs)
+//@ loop 7
+//@   invariant unchangedExcept("Table.Rows", "TableRow.*", "Paragraph.Runs")
+//@   invariant unchangedBelow(B)
+//@   invariant closedRows(B)
+//@   invariant closedCells(B)
+//@   invariant closedTables(B)
+//@   invariant table != nil && above(table, B) && above(newRows, B) && tagged(newRows, "TableRow") && newRow != nil && above(newRow, B) && above(newRow.Cells, B) && tagged(newRow.Cells, "TableCell")
+//@   invariant forall t *Table :: !isElem(t) && t != table ==> t.Rows == old(t.Rows)
+//@   invariant forall r *TableRow :: !isElem(r) && allocated(r) ==> r.Cells == old(r.Cells)
+//@   invariant forall p *Paragraph :: !isElem(p) && allocated(p) ==> p.Runs == old(p.Runs)
+//@ loop 8
+//@   invariant unchangedExcept("Table.Rows", "TableRow.*", "Paragraph.Runs")
+//@   invariant unchangedBelow(B)
+//@   invariant closedRows(B)
+//@   invariant closedCells(B)
+//@   invariant closedTables(B)
+//@   invariant table != nil && above(table, B) && above(newRows, B) && tagged(newRows, "TableRow") && newRow != nil && above(newRow, B) && above(newRow.Cells, B) && tagged(newRow.Cells, "TableCell")
+//@   invariant forall t *Table :: !isElem(t) && t != table ==> t.Rows == old(t.Rows)
+//@   invariant forall r *TableRow :: !isElem(r) && allocated(r) ==> r.Cells == old(r.Cells)
+//@   invariant forall p *Paragraph :: !isElem(p) && allocated(p) ==> p.Runs == old(p.Runs)
+//@ loop 9
+//@   invariant unchangedExcept("Table.Rows", "TableRow.*", "Paragraph.Runs")
+//@   invariant unchangedBelow(B)
+//@   invariant closedRows(B)
+//@   invariant closedCells(B)
+//@   invariant closedTables(B)
+//@   invariant table != nil && above(table, B) && above(newRows, B) && tagged(newRows, "TableRow") && newRow != nil && above(newRow, B) && above(newRow.Cells, B) && tagged(newRow.Cells, "TableCell")
+//@   invariant forall t *Table :: !isElem(t) && t != table ==> t.Rows == old(t.Rows)
+//@   invariant forall r *TableRow :: !isElem(r) && allocated(r) ==> r.Cells == old(r.Cells)
+//@   invariant forall p *Paragraph :: !isElem(p) && allocated(p) ==> p.Runs == old(p.Runs)
+//@ loop 10
+//@   invariant unchangedExcept("Table.Rows", "TableRow.*", "Paragraph.Runs")
+//@   invariant unchangedBelow(B)
+//@   invariant closedRows(B)
+//@   invariant closedCells(B)
+//@   invariant closedTables(B)
+//@   invariant table != nil && above(table, B) && above(newRows, B) && tagged(newRows, "TableRow") && newRow != nil && above(newRow, B) && above(newRow.Cells, B) && tagged(newRow.Cells, "TableCell")
+//@   invariant forall t *Table :: !isElem(t) && t != table ==> t.Rows == old(t.Rows)
+//@   invariant forall r *TableRow :: !isElem(r) && allocated(r) ==> r.Cells == old(r.Cells)
+//@   invariant forall p *Paragraph :: !isElem(p) && allocated(p) ==> p.Runs == old(p.Runs)
+//@ loop 11
+//@   invariant unchangedExcept("Table.Rows", "TableRow.*", "Paragraph.Runs")
+//@   invariant unchangedBelow(B)
+//@   invariant closedRows(B)
+//@   invariant closedCells(B)
+//@   invariant closedTables(B)
+//@   invariant table != nil && above(table, B) && above(newRows, B) && tagged(newRows, "TableRow") && newRow != nil && above(newRow, B) && above(newRow.Cells, B) && tagged(newRow.Cells, "TableCell")
+//@   invariant forall t *Table :: !isElem(t) && t != table ==> t.Rows == old(t.Rows)
+//@   invariant forall r *TableRow :: !isElem(r) && allocated(r) ==> r.Cells == old(r.Cells)
+//@   invariant forall p *Paragraph :: !isElem(p) && allocated(p) ==> p.Runs == old(p.Runs)
+//@ loop 12
+//@   invariant unchangedExcept("Table.Rows", "TableRow.*", "Paragraph.Runs")
+//@   invariant unchangedBelow(B)
+//@   invariant closedRows(B)
+//@   invariant closedCells(B)
+//@   invariant closedTables(B)
+//@   invariant table != nil && above(table, B) && above(newRows, B) && tagged(newRows, "TableRow") && newRow != nil && above(newRow, B) && above(newRow.Cells, B) && tagged(newRow.Cells, "TableCell")
+//@   invariant forall t *Table :: !isElem(t) && t != table ==> t.Rows == old(t.Rows)
+//@   invariant forall r *TableRow :: !isElem(r) && allocated(r) ==> r.Cells == old(r.Cells)
+//@   invariant forall p *Paragraph :: !isElem(p) && allocated(p) ==> p.Runs == old(p.Runs)
+//@ loop 13
+//@   invariant unchangedExcept("Table.Rows", "TableRow.*", "Paragraph.Runs")
+//@   invariant unchangedBelow(B)
+//@   invariant closedRows(B)
+//@   invariant closedCells(B)
+//@   invariant closedTables(B)
+//@   invariant table != nil && above(table, B) && above(newRows, B) && tagged(newRows, "TableRow") && newRow != nil && above(newRow, B) && above(newRow.Cells, B) && tagged(newRow.Cells, "TableCell")
+//@   invariant forall t *Table :: !isElem(t) && t != table ==> t.Rows == old(t.Rows)
+//@   invariant forall r *TableRow :: !isElem(r) && allocated(r) ==> r.Cells == old(r.Cells)
+//@   invariant forall p *Paragraph :: !isElem(p) && allocated(p) ==> p.Runs == old(p.Runs)
